@@ -22,9 +22,13 @@ open Mistral
 def rstripChars (s chars : List Char) : List Char :=
   (s.reverse.dropWhile (fun c => chars.contains c)).reverse
 
-/-- `parent_wf_name.rstrip(parent_wf_spec_name)[:-1]` (python `''[:-1] == ''`). -/
+/-- the workbook name of the parent (fix 52ef6286): when the execution name ends with "." ++ spec name it
+    is cut as a suffix (`parent_wf_name[:-len(spec) - 1]`); otherwise the old expression
+    `parent_wf_name.rstrip(parent_wf_spec_name)[:-1]` (python `''[:-1] == ''`). -/
 def wbNameOf (parentWfName parentSpecName : List Char) : List Char :=
-  (rstripChars parentWfName parentSpecName).dropLast
+  if ('.' :: parentSpecName).isSuffixOf parentWfName
+  then parentWfName.take (parentWfName.length - parentSpecName.length - 1)
+  else (rstripChars parentWfName parentSpecName).dropLast
 
 /-- `"%s.%s" % (wb_name, wf_spec_name)` -/
 def fullName (wb spec : List Char) : List Char := wb ++ '.' :: spec
@@ -106,9 +110,23 @@ def splitStep (declared : List String) (acc : Dict × Dict) (kv : String × Val)
   if declared.contains kv.1 then acc
   else (Dict.erase acc.1 kv.1, Dict.set acc.2 kv.1 kv.2)
 
-/-- returns (child input, child params); `base` = the reserved params already assigned. -/
-def splitInput (declared : List String) (input : Dict) (base : Dict) : Dict × Dict :=
+/-- the loop without the reserved-name check: (child input, child params); `base` = the reserved params
+    already assigned (an undeclared key of the same name would overwrite them). -/
+def moveUndeclared (declared : List String) (input : Dict) (base : Dict) : Dict × Dict :=
   input.foldl (splitStep declared) (input, base)
+
+/-- names an undeclared input key must not have (fix f99833f3; tied to the source by
+    Gen.SubWfFacts.reservedInputKeys): the parameters that link the child to its parent -/
+def reservedKeys : List String := ["root_execution_id", "task_execution_id", "index", "namespace"]
+
+/-- some undeclared input key has a reserved name -/
+def collides (declared : List String) (input : Dict) : Bool :=
+  input.any (fun kv => !declared.contains kv.1 && reservedKeys.contains kv.1)
+
+/-- the loop of WorkflowAction.schedule: InputException (declared; the task fails) when an undeclared
+    key has a reserved name, else the undeclared keys are moved to the params. -/
+def splitInput (declared : List String) (input : Dict) (base : Dict) : Except Err (Dict × Dict) :=
+  if collides declared input then .error .inputError else .ok (moveUndeclared declared input base)
 
 /-- keyword parameters of `EngineClient.start_workflow`: a param of the same name makes the call
     `start_workflow(id, ns, None, input, desc, async_=True, **wf_params)` a TypeError. -/
@@ -159,7 +177,7 @@ def schedule (parentParams : Dict) (parentRoot : Option String) (parentId taskId
     (index : Nat) (declared : List String) (input : Dict) (viaRpc : Bool) (defNs : String) :
     Except Err ExecRec := do
   let base ← baseParams parentParams (rootOf parentRoot parentId) taskId index
-  let (inp, par) := splitInput declared input base
+  let (inp, par) ← splitInput declared input base
   let par ← startParams viaRpc defNs par
   createExecution inp par
 
